@@ -218,4 +218,106 @@ theorem validateCreate_dup (cfg : Cfg) (env : Env) (s : State) (p : Params) (arn
   rw [hk]
   simp [hl]
 
+theorem updRole_ok (p : Params) (r : Option Str) (h : updRole p = .ok r) :
+    (truthyArg (arg p "roleArn") = false → r = none) ∧
+    (truthyArg (arg p "roleArn") = true →
+      ∃ x, r = some x ∧ arg p "roleArn" = some (.str x) ∧ validRoleArn x = true) := by
+  unfold updRole at h
+  split at h
+  · rename_i hf
+    cases h
+    simp at hf
+    simp [hf]
+  · rename_i ht
+    simp at ht
+    split at h
+    · rename_i x hx
+      split at h
+      · rename_i hv
+        cases h
+        rw [hx] at ht
+        simp [ht, hx, hv]
+      · cases h
+    · cases h
+
+theorem updDefinition_ok (cfg : Cfg) (env : Env) (p : Params) (d : Option Json)
+    (h : updDefinition cfg env p = .ok d) :
+    (truthyArg (arg p "definition") = false → d = none) ∧
+    (truthyArg (arg p "definition") = true →
+      ∃ t x, d = some x ∧ arg p "definition" = some (.str t) ∧ parseJson t = some x) := by
+  unfold updDefinition at h
+  split at h
+  · rename_i hf
+    cases h
+    simp at hf
+    simp [hf]
+  · rename_i ht
+    simp at ht
+    split at h
+    · cases h
+    · rename_i x hx
+      cases h
+      obtain ⟨t, hj, hp, _, _⟩ := decodeDefinition_ok cfg env _ _ hx
+      refine ⟨by simp [ht], fun _ => ⟨t, x, rfl, ?_, hp⟩⟩
+      cases hga : arg p "definition" with
+      | none => simp [hga, truthyArg] at ht
+      | some j => simp [hga] at hj; rw [hj]
+
+theorem updLogging_ok (cfg : Cfg) (p : Params) (l : Option Json) (h : updLogging cfg p = .ok l) :
+    ((cfg.logging && truthyArg (arg p "loggingConfiguration")) = false → l = none) ∧
+    ((cfg.logging && truthyArg (arg p "loggingConfiguration")) = true →
+      ∃ x, l = some x ∧ checkLogging ((arg p "loggingConfiguration").getD (.obj [])) = .ok x) := by
+  unfold updLogging at h
+  split at h
+  · rename_i hf
+    cases h
+    refine ⟨fun _ => rfl, fun ht => ?_⟩
+    simp at hf ht
+    rcases hf with hf | hf <;> simp_all
+  · rename_i ht
+    split at h
+    · cases h
+    · rename_i x hx
+      cases h
+      refine ⟨fun hf => ?_, fun _ => ⟨x, rfl, hx⟩⟩
+      simp at ht hf
+      simp_all
+
+/-- a successful UpdateStateMachine validation, taken apart -/
+theorem validateUpdate_ok (cfg : Cfg) (env : Env) (s : State) (p : Params) (arn : Str) (m' : Machine)
+    (h : validateUpdate cfg env s p = .ok (arn, m')) :
+    ∃ m role d lc, arnArg validSmArn (arg p "stateMachineArn") = .ok arn ∧
+      lookup s.machines arn = some m ∧ updRole p = .ok role ∧ updDefinition cfg env p = .ok d ∧
+      updLogging cfg p = .ok lc ∧
+      m' = { m with roleArn := role.getD m.roleArn, definition := d.getD m.definition,
+                    logging := (match lc with | some l => some l | none => m.logging),
+                    updateDate := env.now } := by
+  unfold validateUpdate at h
+  split at h
+  · cases h
+  · rename_i arn' ha
+    split at h
+    · cases h
+    · rename_i m hm
+      split at h
+      · cases h
+      · rename_i role hr
+        split at h
+        · cases h
+        · rename_i d hd
+          split at h
+          · cases h
+          · split at h
+            · cases h
+            · rename_i lc hlc
+              cases h
+              exact ⟨m, role, d, lc, ha, hm, hr, hd, hlc, rfl⟩
+
+theorem validateUpdate_unknown (cfg : Cfg) (env : Env) (s : State) (p : Params) (arn : Str)
+    (ha : arnArg validSmArn (arg p "stateMachineArn") = .ok arn) (hl : lookup s.machines arn = none) :
+    validateUpdate cfg env s p = .error (S "StateMachineDoesNotExist") := by
+  unfold validateUpdate
+  rw [ha]
+  simp [hl]
+
 end Asl.Api
